@@ -590,6 +590,21 @@ def m_min(it, c, a):
     return z3.If(z3.ULE(x, y), x, y)
 
 
+def m_option_eq(neg):
+    def f(it, c, a):
+        x, y = val(a[0]), val(a[1])
+        if x.variant != y.variant:
+            r = z3.BoolVal(False)
+        elif x.variant == 0:
+            r = z3.BoolVal(True)
+        else:
+            p, q = dval(x.fields[0]), dval(y.fields[0])
+            if z3.is_expr(p) or z3.is_expr(q): r = p == q
+            else: r = z3.BoolVal(pykey(p) == pykey(q))
+        return z3.Not(r) if neg else r
+    return f
+
+
 MAPT = r"(?:BTreeMap|HashMap)::<[^>]*(?:<[^<>]*>[^<>]*)*>"
 SETT = r"(?:BTreeSet|HashSet)::<[^>]*(?:<[^<>]*>[^<>]*)*>"
 
@@ -677,4 +692,6 @@ MODELS = [
     (R(r" as Default>::default$"), m_default),
     (R(r"^<(?:BTreeSet|HashSet|BTreeMap|HashMap|Vec)<.*> as Clone>::clone$"), m_clone),
     (R(r"^std::cmp::min::<usize>$|^cmp::min::<usize>$"), m_min),
+    (R(r"^<(?:std::option::)?Option<.*> as PartialEq>::eq$"), m_option_eq(False)),
+    (R(r"^<(?:std::option::)?Option<.*> as PartialEq>::ne$"), m_option_eq(True)),
 ]
